@@ -221,6 +221,19 @@ theorem bbc_concurrent (decodes : Bytes → Bool) (k : UInt8) (fs : List Frag) (
     (runTable decodes tab fs).filter (·.tid == k) = run decodes (tab.get k) (fs.filter (·.tid == k)) :=
   Lemmas.runTable_project decodes k fs tab
 
+/-- Safety and concurrency together: in ANY stream of fragments of any transmissions in which the fragments
+carrying id `tid` are a selection of one well-formed train (consecutive arrivals less than 16 positions apart),
+everything an initially empty connector delivers under that id is the train's payload. -/
+theorem bbc_safe_concurrent (decodes : Bytes → Bool) (tid : UInt8) (mtu : Nat) (payload : Bytes) (t : List Frag)
+    (ht : TrainOk tid mtu payload t) (is : List Nat) (hin : ∀ j ∈ is, j < t.length) (hw : windowOk is = true)
+    (fs : List Frag) (hsel : fs.filter (·.tid == tid) = pick t is) :
+    ∀ o ∈ runTable decodes [] fs, o.tid = tid → o.isDeliver = true → o = .deliver tid payload := by
+  intro o ho htid hdel
+  have hmem : o ∈ (runTable decodes [] fs).filter (·.tid == tid) := by
+    simp [List.mem_filter, ho, htid]
+  rw [bbc_concurrent decodes tid fs [], hsel] at hmem
+  exact bbc_safe decodes tid mtu payload t ht is hin hw o hmem hdel
+
 example : TrainOk 7 4 [1, 2, 3, 4, 5] (train 7 4 [1, 2, 3, 4, 5]) := by decide
 example : (train 7 4 [1, 2, 3, 4, 5]).map (·.bytes) = [[7, 0x0C, 1, 2], [7, 0x10, 3, 4], [7, 0x1A, 5]] := by decide
 example : windowOk ((Fault.swap 1).apply 4) = true := by decide
